@@ -231,6 +231,18 @@ theorem authVerification_follows_forkChoice (s : State) (order src tgt : Nat) (s
     (s.authVerification order src tgt sigOk).1.best = (s.authVerification order src tgt sigOk).1.bestChain :=
   authVerification_sync s order src tgt sigOk hsync hok
 
+/-- Over whole histories: a node that is told any block definitions and then receives any
+    sequence of blocks and votes, none answered with an error, ends on the fork choice of its
+    checkpoint tree. -/
+theorem run_follows_forkChoice (cfg : Config) (g : Header) (ds : List Header) (evs : List Event)
+    (hok : AnswersOK (run (State.init cfg g) (ds.map Event.define)) evs) :
+    (run (State.init cfg g) (ds.map Event.define ++ evs)).best =
+      (run (State.init cfg g) (ds.map Event.define ++ evs)).bestChain := by
+  have : run (State.init cfg g) (ds.map Event.define ++ evs) = run (run (State.init cfg g) (ds.map Event.define)) evs := by
+    simp [run, List.foldl_append]
+  rw [this]
+  exact run_sync evs _ (init_defs_sync cfg g ds) hok
+
 /-! ### The id-consistency hypothesis is needed (a statement that is FALSE of the model)
 
 The step theorems take the block from a universe in which one id names one block.  Without that
@@ -304,6 +316,9 @@ example : [exB 1 0 1, exB 2 1 2, exB 3 1 2, exB 4 2 3].map (inMain (run (State.i
 /-- hypotheses of `processBlock_follows_forkChoice` / `authVerification_follows_forkChoice` -/
 example : (run (State.init exCfg exG) (exEvents.take 8)).best = (run (State.init exCfg exG) (exEvents.take 8)).bestChain ∧
     ((run (State.init exCfg exG) (exEvents.take 8)).authVerification 0 0 3 true).2 = .ok := by decide +kernel
+/-- hypothesis of `run_follows_forkChoice` -/
+example : AnswersOK (run (State.init exCfg exG) ([exB 1 0 1, exB 2 1 2, exB 3 1 2, exB 4 2 3].map Event.define))
+    (exEvents.drop 4) := by decide +kernel
 /-- hypotheses of the `calcReorg_*` theorems: a stored fork; attach [3], detach [4, 2] -/
 example : (match (run (State.init exCfg exG) (exEvents.take 8)).header 3, (run (State.init exCfg exG) (exEvents.take 8)).header 4 with
     | some nb, some ob =>
